@@ -21,6 +21,7 @@
 #include <node/blockstorage.h>
 #include <undo.h>
 #include <util/fs.h>
+#include <util/time.h>
 
 #include <limits>
 #include <map>
@@ -28,7 +29,16 @@
 
 using namespace verif;
 
+// hook H2 (/repo/src/node/blockstorage.cpp, guard BITCOIN_VERIF_HOOKS): floor of the automatic prune target and the allocation buffer of FindFilesToPrune
+namespace verif {
+extern uint64_t g_min_prune_target;
+extern uint64_t g_prune_buffer;
+} // namespace verif
+
 namespace {
+
+constexpr uint64_t DEFAULT_MIN_PRUNE_TARGET = 550ULL << 20;          // MIN_DISK_SPACE_FOR_BLOCK_FILES
+constexpr uint64_t DEFAULT_PRUNE_BUFFER = (16ULL << 20) + (1ULL << 20); // BLOCKFILE_CHUNK_SIZE + UNDOFILE_CHUNK_SIZE
 
 void init() {}
 
@@ -47,8 +57,11 @@ struct Harness {
     Stats& st;
     std::map<std::string, int> locks; //!< model of the prune locks: name -> height
     std::set<uint256> stored;         //!< blocks delivered with data
-    int prune_events{0}, files_pruned_total{0};
+    int prune_events{0}, files_pruned_total{0}, auto_events{0};
     bool straddle{false}, lock_inside_eligible{false};
+    bool auto_mode{false};
+    uint64_t target{0}, buffer{0};
+    bool stopped_under_target{false}, stopped_no_eligible{false};
 
     Harness(ChainSim& s_, Stats& st_) : sim(s_), st(st_) {}
 
@@ -96,13 +109,78 @@ struct Harness {
         return false;
     }
 
+    /** bytes the node accounts per block file (block data + undo data) */
+    std::map<int, uint64_t> FileSizes(const Snapshot& sn)
+    {
+        std::map<int, uint64_t> out;
+        LOCK(cs_main);
+        for (auto& [file, blocks] : sn.files) {
+            auto* fi = Blockman().GetBlockFileInfo(size_t(file));
+            out[file] = uint64_t(fi->nSize) + uint64_t(fi->nUndoSize);
+        }
+        return out;
+    }
+
+    static bool LostData(const Snapshot& before, const Snapshot& after)
+    {
+        for (auto& [h, b4] : before.rec) if (b4.data && !after.rec.at(h).data) return true;
+        return false;
+    }
+
+    /** automatic pruning clause: called after a block delivery in auto mode with the snapshot/sizes taken before it */
+    void AfterDelivery(const Snapshot& before, const std::map<int, uint64_t>& sizes_before, int tip_height_before)
+    {
+        Snapshot after = Take();
+        if (!LostData(before, after)) return;
+        auto_events++;
+        int th = sim.TipHeight();
+        AfterPrune(before, after, "auto-prune", th);
+        // files pruned by this pass, in file order
+        std::vector<int> pruned;
+        for (auto& [file, blocks] : before.files) if (!after.rec.at(blocks.front()).data) pruned.push_back(file);
+        uint64_t usage_after = WITH_LOCK(cs_main, return Blockman().CalculateCurrentUsage());
+        // (1) the pass went on until usage was back under the target, or no eligible file was left. Eligible (PruneLockInfo documentation: only heights
+        //     <= lock - 11 are pruned; never the last 288 blocks; never the file being written): every block of the file at a height <= bound.
+        //     The pass triggered by the block write (AcceptBlock) runs BEFORE the new block is connected, i.e. with the previous tip: use that bound.
+        int bound = tip_height_before - 288;
+        for (auto& [name, lh] : locks) bound = std::min(bound, lh - 11);
+        int current_file = after.files.empty() ? -1 : after.files.rbegin()->first;
+        bool eligible_left = false;
+        int eligible_file = -1;
+        for (auto& [file, blocks] : after.files) {
+            if (file >= current_file) continue;
+            int hmax = -1;
+            for (auto& h : blocks) hmax = std::max(hmax, sim.ledger.At(h).height);
+            if (hmax <= bound) { eligible_left = true; eligible_file = file; break; }
+        }
+        st.steps++;
+        // slack: the pass triggered by the block write runs before the (tiny, the blocks have no spends) undo record of that block is written
+        VCHECK(usage_after < target + 1000 || !eligible_left, "c19.auto-prune-stops-early", "after an automatic prune pass usage", usage_after, ">= target", target,
+               "although file", eligible_file, "is still eligible (bound", bound, ") tip", th);
+        if (usage_after < target + 1000) stopped_under_target = true; else stopped_no_eligible = true;
+        // (2) it did not go on after usage was back under the target: when the LAST pruned file was removed, usage + buffer was still >= target
+        //     (usage then <= usage_after + size of that file, because usage only grew afterwards)
+        if (!sim.chainman().IsInitialBlockDownload()) { // in IBD with headers ahead the node deliberately prunes ahead (documented extra buffer)
+            uint64_t before_last = usage_after + sizes_before.at(pruned.back());
+            st.steps++;
+            VCHECK(before_last + buffer >= target, "c19.over-pruned", "file", pruned.back(), "was pruned although usage", before_last, "+ buffer", buffer, "was already under the target", target);
+        } else {
+            st.cls("ibd-during-auto-prune");
+        }
+        st.cls("auto-prune-event");
+    }
+
     /** compare the node after a prune event with the snapshot taken before it */
     void AfterPrune(const Snapshot& before, const char* what, int request)
+    {
+        Snapshot after = Take();
+        AfterPrune(before, after, what, request);
+    }
+    void AfterPrune(const Snapshot& before, const Snapshot& after, const char* what, int request)
     {
         prune_events++;
         uint256 tip = sim.TipHash();
         int th = sim.TipHeight();
-        Snapshot after = Take();
         // per file: all or nothing
         int pruned_files = 0;
         for (auto& [file, blocks] : before.files) {
@@ -123,7 +201,7 @@ struct Harness {
             VCHECK(kept == 0 || lost == 0, "c19.file-partial", what, "file", file, "lost the data of", lost, "blocks but kept", kept);
             if (lost) ++pruned_files;
             // non-triviality: a file that straddles the 288-window boundary or that a lock cuts through, while the request reached into it
-            if (hmin <= th - 288 && hmax > th - 288 && request >= hmin) straddle = true;
+            if (hmin <= th - 288 && hmax > th - 288 && request >= th - 288 - 3) straddle = true;
             if (lock_prot && lock_free && request >= hmin) lock_inside_eligible = true;
             (void)any_protected;
         }
@@ -158,14 +236,33 @@ VERIF_TARGET(c19_prune, init, 64, 600,
              "prune: keep-set model vs block index flags + disk reads. non-trivial = a prune request reached into a file straddling the 288 boundary or cut by a lock; "
              "distinct = op sequence + boundary offsets")
 {
+    // hook H2 back to the production values at the top of every case
+    verif::g_min_prune_target = DEFAULT_MIN_PRUNE_TARGET;
+    verif::g_prune_buffer = DEFAULT_PRUNE_BUFFER;
+    // the base chain's timestamps start at the regtest genesis time: a mock clock one hour later keeps the tip "recent" (node leaves IBD),
+    // so the IBD-only extra prune buffer stays out of the automatic-prune model
+    SetMockTime(1296688602 + 3600);
+    const bool auto_mode = s.chance(110);
     ChainSimOpts o;
     o.extra_args = {"-fastprune"};
     o.fast_prune = true;
     o.prune_target = node::BlockManager::PRUNE_TARGET_MANUAL;
+    uint64_t auto_target = 0, auto_buffer = 0;
+    if (auto_mode) {
+        // 0.75 .. 6.9 MiB: the last 288 blocks hold ~3 MiB on average, so both ways a pass can end are reached (back under the target / no eligible file left)
+        auto_target = uint64_t(s.range<unsigned>(12, 110)) * 65536;
+        auto_buffer = s.pick<uint64_t>({0, 20000, 70000, 140000});
+        o.prune_target = auto_target;
+        verif::g_min_prune_target = 1;
+        verif::g_prune_buffer = auto_buffer;
+    }
     o.check_block_index = 0; // CheckBlockIndex walks the whole index per block: too slow for 600-block chains (C08/C54 own that check)
     auto simp = std::make_unique<ChainSim>(o);
     ChainSim& sim = *simp;
     Harness H(sim, st);
+    H.auto_mode = auto_mode; H.target = auto_target; H.buffer = auto_buffer;
+    st.cls(auto_mode ? "auto-mode" : "manual-mode");
+    st.mix(uint64_t(auto_mode)); st.mix(auto_buffer);
     auto base = sim.LoadBase(104);
     for (auto& h : base) H.stored.insert(h);
     H.stored.insert(sim.ledger.genesis);
@@ -185,9 +282,14 @@ VERIF_TARGET(c19_prune, init, 64, 600,
             payload -= n;
         }
         auto blk = sim.Build(spec);
+        Snapshot before;
+        std::map<int, uint64_t> sizes;
+        int tip_height_before = sim.TipHeight();
+        if (H.auto_mode) { before = H.Take(); sizes = H.FileSizes(before); }
         auto d = sim.Deliver(blk);
         VCHECK(d.processed && (!d.verdict || d.verdict->IsValid()), "c19.model", "valid block rejected", d.verdict ? StateStr(*d.verdict) : "not processed");
         H.stored.insert(blk->GetHash());
+        if (H.auto_mode) H.AfterDelivery(before, sizes, tip_height_before);
         return blk->GetHash();
     };
     auto reorg = [&](int depth, unsigned size_class) {
@@ -201,16 +303,21 @@ VERIF_TARGET(c19_prune, init, 64, 600,
         for (auto& [name, lh] : H.locks) if (lh > fork_h) lh = fork_h;
     };
 
-    // ---- phase A: the chain
+    // ---- phase A: the chain (one generated byte per run of 8 blocks: size pattern of the run, whether it ends in a short fork)
     int target_height = 300 + int(s.range<unsigned>(0, 8)) * 40; // 300..620
     unsigned size_bias = s.range<unsigned>(0, 3);
     while (sim.TipHeight() < target_height) {
-        unsigned r = s.exhausted() ? 0 : s.range<unsigned>(0, 15);
-        unsigned sc = r < 8 ? 0 : (r < 11 ? 1 : (r < 13 ? 2 : (r < 15 ? 3 : 4)));
-        if (size_bias == 1 && sc == 0) sc = 1;
-        if (size_bias == 2 && r >= 4 && r < 8) sc = 2;
-        add_block(sim.TipHash(), sc);
-        if (!s.exhausted() && s.chance(6)) { reorg(int(s.range<unsigned>(1, 3)), sc); st.cls("fork-in-history"); }
+        unsigned b = s.exhausted() ? 0 : s.range<unsigned>(0, 255);
+        for (int i = 0; i < 8 && sim.TipHeight() < target_height; ++i) {
+            unsigned r = (b * 5 + unsigned(i) * 7 + (b >> 4)) % 16;
+            unsigned sc = r < 6 ? 0 : (r < 10 ? 1 : (r < 13 ? 2 : (r < 15 ? 3 : 4)));
+            if (b == 0) sc = 0;
+            if (size_bias == 1 && sc == 0) sc = 1;
+            if (size_bias == 2 && sc == 1) sc = 3;
+            if (size_bias == 3 && i == 7) sc = 4;
+            add_block(sim.TipHash(), sc);
+        }
+        if (!H.auto_mode && b % 32 == 31 && sim.TipHeight() > 110) { reorg(int(b / 32) % 3 + 1, b % 3); st.cls("fork-in-history"); }
     }
     st.mix(uint64_t(target_height / 40)); st.mix(uint64_t(size_bias));
     {
@@ -270,7 +377,7 @@ VERIF_TARGET(c19_prune, init, 64, 600,
             for (unsigned i = 0; i < n; ++i) add_block(sim.TipHash(), (i % 3 == 0) ? sc : 0);
             st.note("extend ", n);
             st.mix(uint64_t(0x300 + sc));
-        } else if (kind == 7) { // reorg near the tip
+        } else if (kind == 7 && !H.auto_mode) { // reorg near the tip (manual mode only: in auto mode one block per delivery keeps the usage accounting of a pass simple)
             int depth = int(s.range<unsigned>(1, 4));
             reorg(depth, s.range<unsigned>(0, 2));
             st.note("reorg depth=", depth);
@@ -293,6 +400,11 @@ VERIF_TARGET(c19_prune, init, 64, 600,
             st.note("headers +", n);
             st.mix(uint64_t(0x500)); st.cls("headers-ahead");
         }
+    }
+    if (H.auto_mode) {
+        if (H.auto_events == 0) st.cls("auto-mode-never-pruned");
+        if (H.stopped_under_target) st.cls("auto-stopped-under-target");
+        if (H.stopped_no_eligible) st.cls("auto-stopped-no-eligible-file");
     }
     st.nontrivial = H.straddle || H.lock_inside_eligible;
     if (H.straddle) st.cls("straddling-file");
